@@ -120,6 +120,146 @@ let run_prs (toks : string list) : string =
     String.concat " " (Stdlib.List.map show outs)
   | _ -> failwith "bad PRS case"
 
+(* ---- bit layer ---- *)
+let parse_type (s : string) : Record.dtype =
+  match String.split_on_char '/' s with
+  | "F" :: _ -> Record.TSingle
+  | "D" :: _ -> Record.TDouble
+  | "I" :: mn :: mx :: _ -> Record.TInteger (z_of_decimal mn, z_of_decimal mx)
+  | "S" :: mn :: mx :: _ -> Record.TScaled (z_of_decimal mn, z_of_decimal mx)
+  | _ -> failwith "bad type"
+
+let n_of_hex (s : string) : BinNums.coq_N =
+  let sixteen = n_of_int 16 in
+  let acc = ref BinNums.N0 in
+  String.iter (fun c -> acc := BinNat.N.add (BinNat.N.mul !acc sixteen) (n_of_int (hexval c))) s;
+  !acc
+
+let hex_of_n (digits : int) (n : BinNums.coq_N) : string =
+  let sixteen = n_of_int 16 in
+  let rec go n k acc =
+    if k = 0 then acc else
+      let (q, r) = BinNat.N.div_eucl n sixteen in
+      go q (k - 1) (Printf.sprintf "%x" (int_of_n r) ^ acc) in
+  go n digits ""
+
+let parse_value (s : string) : Record.rvalue =
+  let a = String.sub s 1 (String.length s - 1) in
+  match s.[0] with
+  | 'f' -> Record.VSingle (n_of_hex a)
+  | 'd' -> Record.VDouble (n_of_hex a)
+  | 's' -> Record.VScaled (z_of_decimal a)
+  | 'i' -> Record.VInteger (z_of_decimal a)
+  | _ -> failwith "bad value"
+
+let show_value (v : Record.rvalue) : string =
+  match v with
+  | Record.VSingle x -> "f" ^ hex_of_n 8 x
+  | Record.VDouble x -> "d" ^ hex_of_n 16 x
+  | Record.VScaled z -> "s" ^ decimal_of_z z
+  | Record.VInteger z -> "i" ^ decimal_of_z z
+
+let rec split_chunks (stream : BinNums.coq_N list) (cuts : int list) : BinNums.coq_N list list =
+  match cuts with
+  | [] -> [stream]
+  | c :: r ->
+    let rec take k l acc = if k = 0 then (Stdlib.List.rev acc, l) else
+        match l with [] -> (Stdlib.List.rev acc, []) | x :: t -> take (k-1) t (x :: acc) in
+    let (a, b) = take c stream [] in
+    a :: split_chunks b r
+
+(* BITS <type> c<cuts> values... *)
+let run_bits (toks : string list) : string =
+  match toks with
+  | ty :: cuts :: vals ->
+    let t = parse_type ty in
+    let cuts = Stdlib.List.map int_of_string
+        (Stdlib.List.filter (fun x -> x <> "") (String.split_on_char ',' (String.sub cuts 1 (String.length cuts - 1)))) in
+    let vals = Stdlib.List.map parse_value vals in
+    let w = int_of_n (Record.bit_size t) in
+    let rec wr i vs b = match vs with
+      | [] -> Stdlib.Ok b
+      | v :: r -> (match Record.dtype_write t v b with
+          | Prelude.Ok b' -> wr (i+1) r b'
+          | Prelude.Err k -> Stdlib.Error (Printf.sprintf "w=%d we%s@%d" w (err_name k) i)
+          | Prelude.Panic -> Stdlib.Error (Printf.sprintf "w=%d wP@%d" w i)) in
+    (match wr 0 vals BsWrite.bsw_new with
+     | Stdlib.Error m -> m
+     | Stdlib.Ok b ->
+       let (_, stream) = BsWrite.bsw_get_all_bytes b in
+       let out = Printf.sprintf "w=%d stream=%s" w (hex_of_bytes stream) in
+       if w = 0 then out else
+         (match Record.feed_chunks t (split_chunks stream cuts) BsRead.bsr_new [] with
+          | Prelude.Ok (_, vs) -> out ^ " out=" ^ String.concat "," (Stdlib.List.map show_value vs)
+          | Prelude.Err k -> out ^ " re" ^ err_name k
+          | Prelude.Panic -> out ^ " rP"))
+  | _ -> failwith "bad BITS case"
+
+(* BITSPEC <type> c<cuts> values...: the independent codec *)
+let run_bitspec (toks : string list) : string =
+  match toks with
+  | ty :: _ :: vals ->
+    let t = parse_type ty in
+    let vals = Stdlib.List.map parse_value vals in
+    let w = int_of_n (BitSpec.spec_bit_size t) in
+    let stream = BitSpec.spec_stream_bytes t vals in
+    let out = Printf.sprintf "w=%d stream=%s" w (hex_of_bytes stream) in
+    if w = 0 then out else
+      out ^ " out=" ^ String.concat "," (Stdlib.List.map show_value (BitSpec.spec_decode_stream t stream))
+  | _ -> failwith "bad BITSPEC case"
+
+let run_bw (toks : string list) : string =
+  let outs = ref [] in
+  let b = ref BsWrite.bsw_new in
+  (try
+     Stdlib.List.iter (fun t ->
+         let a = String.sub t 1 (String.length t - 1) in
+         let push x = outs := x :: !outs; if x = "P" then raise Exit in
+         match t.[0] with
+         | 'b' ->
+           let i = String.index a ':' in
+           let bits = n_of_decimal (String.sub a 0 i) in
+           let data = bytes_of_hex (String.sub a (i+1) (String.length a - i - 1)) in
+           (match BsWrite.bsw_add_bits !b data bits with
+            | Prelude.Ok b' -> b := b'; push "o" | _ -> push "P")
+         | 'y' ->
+           (match BsWrite.bsw_add_bytes !b (bytes_of_hex a) with
+            | Prelude.Ok b' -> b := b'; push "o" | _ -> push "P")
+         | 'g' ->
+           (match BsWrite.bsw_get_full_bytes !b with
+            | Prelude.Ok (b', v) -> b := b'; push ("[" ^ hex_of_bytes v ^ "]") | _ -> push "P")
+         | 'G' -> let (b', v) = BsWrite.bsw_get_all_bytes !b in b := b'; push ("[" ^ hex_of_bytes v ^ "]")
+         | 'n' ->
+           (match BsWrite.bsw_full_bytes !b with
+            | Prelude.Ok f -> push (Printf.sprintf "%d/%d" (int_of_n f) (int_of_n (BsWrite.bsw_all_bytes !b)))
+            | _ -> push "P")
+         | _ -> failwith "bad bw op") toks
+   with Exit -> ());
+  String.concat " " (Stdlib.List.rev !outs)
+
+let run_br (toks : string list) : string =
+  let outs = ref [] in
+  let b = ref BsRead.bsr_new in
+  (try
+     Stdlib.List.iter (fun t ->
+         let a = String.sub t 1 (String.length t - 1) in
+         let push x = outs := x :: !outs; if x = "P" then raise Exit in
+         match t.[0] with
+         | 'a' ->
+           (match BsRead.bsr_append !b (bytes_of_hex a) with
+            | Prelude.Ok b' -> b := b'; push "o" | _ -> push "P")
+         | 'e' ->
+           (match BsRead.bsr_extract !b (n_of_decimal a) with
+            | Prelude.Ok (b', Some v) -> b := b'; push (decimal_of_n v)
+            | Prelude.Ok (b', None) -> b := b'; push "none"
+            | _ -> push "P")
+         | 'v' ->
+           (match BsRead.bsr_available !b with
+            | Prelude.Ok v -> push (decimal_of_n v) | _ -> push "P")
+         | _ -> failwith "bad br op") toks
+   with Exit -> ());
+  String.concat " " (Stdlib.List.rev !outs)
+
 let run_crc (toks : string list) : string =
   match toks with
   | [hex] -> decimal_of_n (Crc.crc32c (bytes_of_hex hex))
@@ -138,6 +278,10 @@ let () =
           | "PR" :: r -> run_pr r
           | "CRC" :: r -> run_crc r
           | "PWS" :: r -> run_pws r
+          | "BITS" :: r -> run_bits r
+          | "BITSPEC" :: r -> run_bitspec r
+          | "BW" :: r -> run_bw r
+          | "BR" :: r -> run_br r
           | "PRS" :: r -> run_prs r
           | k :: _ -> "unknown-kind " ^ k
         with
